@@ -202,7 +202,9 @@ def table_mismatch(nodes, rows):
                     return f"row {i} channel flag {col} = {got!r}, expected {want}"
             elif not _cell_equal(float(got) if got is not None else got, want):
                 return f"row {i} column {col} = {got!r}, expected {want!r}"
-    extra = [c for c in nodes.columns if c not in rows[0] and not c.startswith(("global_", "local_")) and c not in ("controlled_by_param", "x", "y", "z")]
+    # columns of channels that no constituent carries (a new bookkeeping column of the library is not judged)
+    mech_prefixes = tuple(m_ + "_" for m_ in MECHS) + tuple(m_ + "b_" for m_ in MECHS)
+    extra = [c for c in nodes.columns if c not in rows[0] and (c.startswith(mech_prefixes) or c in MECHS or c in [m_ + "b" for m_ in MECHS])]
     if extra:
         return f"unexpected columns {extra}"
     return None
